@@ -66,7 +66,7 @@ func c01GenMode(t *rapid.T, withDurations bool) c01Plan {
 	p.Kind = rapid.SampledFrom(kinds).Draw(t, "kind")
 	p.IntervalMs = rapid.SampledFrom([]int{100, 250, 1000}).Draw(t, "interval")
 	p.ProbeTimeoutMs = rapid.SampledFrom([]int{50, 100, 300, 1000}).Draw(t, "probe-timeout")
-	p.DeployMs = rapid.SampledFrom([]int{200, 500, 1000, 3000}).Draw(t, "deploy-timeout")
+	p.DeployMs = rapid.SampledFrom([]int{50, 200, 500, 1000, 3000}).Draw(t, "deploy-timeout") // 50: shorter than every probe interval
 	p.DrainMs = rapid.SampledFrom([]int{100, 400, 2000}).Draw(t, "drain-timeout")
 	if p.Kind != "new" && p.Kind != "conflict" {
 		p.OldTargets = rapid.IntRange(1, 2).Draw(t, "old-targets")
